@@ -13,6 +13,10 @@ from concurrent.futures import ThreadPoolExecutor
 from . import common, oracles
 
 
+# hint sites outside GlGadgets' four inside this code region are probed with generic alternatives after run() (bin/check, common.Ctx.foreign)
+FOREIGN = (("poseidon.(*BN254Chip)",), ("testdata",))
+
+
 def run(ctx):
     ctx.rule = ("states: 6 structured (0, 0..3, r-1, single-hot) + seeded random; HashNoPad and HashOrNoop for every length 0..30 (edge + random "
                 "inputs); two-to-one on boundary and random pairs; ToVec on 0, 1, r-1, 2^56 boundaries, 2^253, random; distinct = distinct inputs per function")
